@@ -25,8 +25,9 @@ import (
 // stable value in general.  In a page-margin box (made once the pagination is final) the values are
 // exact and are required.
 
-// pcPercent is the share of the generated documents with page-based generated content.
-const pcPercent = 16
+// pcPercent is the share of the generated documents with page-based generated content
+// (C02_ALLOW=nopagecounters, development only, sets it to 0 to measure the cost of the sub-domain).
+var pcPercent = 16
 
 // GenPart is one item of a `content` list.
 type GenPart struct {
